@@ -472,6 +472,11 @@ func (s *AbsfsNFS) WriteWithContext(ctx context.Context, node *NFSNode, offset i
 
 	n, err := f.WriteAt(data, offset)
 	if err == nil {
+		// Every WRITE is acknowledged as FILE_SYNC: the data must be on stable
+		// storage before the reply is sent.
+		err = f.Sync()
+	}
+	if err == nil {
 		// Invalidate cache after successful write
 		s.attrCache.Invalidate(node.path)
 
